@@ -114,6 +114,8 @@ def run_program(hy, src, idx, names, in_function=False):
             return "<function>"
         if isinstance(v, (list, tuple)):
             return [show(a) for a in v]
+        if isinstance(v, dict):   # a namespace: only the watched names
+            return {k: show(x) for k, x in sorted(v.items(), key=lambda t: str(t[0])) if k in names}
         return "<%s>" % type(v).__name__
 
     def lg(k, v):
